@@ -388,3 +388,49 @@ class crtf_line_grammar_cases:
         'sign_and_type': lambda want, result: result[0][0].meta['include'] == want['include'] and result[0][0].meta['type'] == want['type'],
         'parsing_again_gives_the_same': lambda result: result[0][0] == result[1][0] and dict(result[0][0].meta) == dict(result[1][0].meta),
     }
+
+
+# ---------------------------------------------------------------------------- writing: lengths in the requested unit, whatever their type
+def _serialize_with(regions, radunit, fmt):
+    from regions.io.crtf.write import _serialize_crtf
+    return _serialize_crtf(regions, coordsys='fk5', fmt=fmt, radunit=radunit)
+
+
+def _with_sizes_as(B, r, kind, how):
+    """the same region with its angular sizes given as astropy Angle objects (a Quantity subclass users do pass) or left as Quantity"""
+    if how == 'quantity':
+        return r
+    names = {'circle': ('radius',), 'circle_annulus': ('inner_radius', 'outer_radius'), 'rectangle': ('width', 'height')}[kind]
+    for n in names:
+        r.__dict__[n] = angle_of(r.__dict__[n])
+    return r
+
+
+def _shape_text_in(kind, r, radunit, nd):
+    from spec.crtf import lonlat_nd
+    S = lambda q: vprim_num(q.to_value(radunit), nd) + ('"' if radunit == 'arcsec' else radunit)      # arcseconds are written with the CASA mark "
+    if kind == 'circle':
+        return 'circle[' + lonlat_nd(r.center, nd) + ', ' + S(r.radius) + ']'
+    if kind == 'circle_annulus':
+        return 'annulus[' + lonlat_nd(r.center, nd) + ', [' + S(r.inner_radius) + ', ' + S(r.outer_radius) + ']]'
+    return 'rotbox[' + lonlat_nd(r.center, nd) + ', [' + S(r.width) + ', ' + S(r.height) + '], ' + vprim_num(r.angle.to_value('deg'), nd) + 'deg]'
+
+
+def vprim_num(v, nd):
+    from vprim import rope_fmt
+    return rope_fmt(v, nd)
+
+
+@contract('regions/io/crtf/write.py::_serialize_crtf', props=['C11'])
+class crtf_lengths_are_written_in_the_requested_unit:
+    """radunit selects the unit of every length; a length is the same physical quantity whether the region holds it as a Quantity
+    or as an Angle, and in whatever unit it holds it; fmt selects the number of decimals"""
+    cases = {f'{k}-{ru}-{how}-{fmt}': {'kind': k, 'radunit': ru, 'how': how, 'fmt': fmt}
+             for k in ('circle', 'circle_annulus', 'rectangle') for ru in ('deg', 'arcsec', 'arcmin') for how in ('quantity', 'angle')
+             for fmt in ('.6f', '.3f') if fmt == '.6f' or (k == 'circle' and how == 'quantity')}
+
+    def setup(B, kind='circle', radunit='deg', how='quantity', fmt='.6f'):
+        return dict(r=_with_sizes_as(B, region(B, kind, 'fk5'), kind, how), kind=kind, radunit=radunit, fmt=fmt)
+    call = lambda r, radunit, fmt: _serialize_with([r], radunit, fmt)
+    post = {'region_line': lambda r, kind, radunit, fmt, result: len(lines_of(result)) == 3 and text_equal(
+        lines_of(result)[2], _shape_text_in(kind, r, radunit, int(fmt[1])))}
